@@ -23,6 +23,7 @@ type ItemScript struct {
 	K   int  `json:"k"`             // 1-based index of the first succeeding attempt (> budget: never)
 	FBE bool `json:"fbe,omitempty"` // the fallback (if installed) fails
 	Nil bool `json:"nil,omitempty"` // a successful attempt returns a nil value (a zero Result is then the item's genuine outcome)
+	EVal bool `json:"eval,omitempty"` // a successful attempt (or rescuing fallback) returns a value whose Go type implements error: still a value
 }
 
 // CancelSpec injects a cancellation.
@@ -66,6 +67,13 @@ type BatchCase struct {
 	ErrResult bool         `json:"err_result,omitempty"` // failing attempts of the Result-style exec function return (NewErrorResult(e), nil) instead of (_, e): exercised by C17 only
 	GateFB    bool         `json:"gate_fb,omitempty"`    // gated: fallback calls park like exec calls (key item*100+99): c items can sit in their fallbacks together
 	WaitNs    int          `json:"wait_ns,omitempty"`    // a retry wait in nanoseconds (tiny, non-zero waits)
+	// PrepSets: the node is BUILT with this other concurrency / the other error-handling mode, and its own prep
+	// callback re-configures it (builder methods) to the case's C / Stop: the last setting before the items run wins
+	PrepSets *PrepSets `json:"prep_sets,omitempty"`
+}
+
+type PrepSets struct {
+	BuiltC int `json:"built_c"`
 }
 
 // Prelude describes the earlier run.
@@ -88,6 +96,19 @@ type bItem struct {
 type bOut struct {
 	Nonce, I, Attempt int
 	FB               bool
+}
+
+// bOutE is a successful outcome whose type happens to implement error (a validation finding, say).
+type bOutE struct{ bOut }
+
+func (e *bOutE) Error() string { return fmt.Sprintf("finding for item %d", e.I) }
+
+// okVal builds the value a successful attempt / fallback of item i hands back.
+func (b *batchRun) okVal(i, a int, fb bool) any {
+	if b.script(i).EVal {
+		return &bOutE{bOut{b.nonce, i, a, fb}}
+	}
+	return &bOut{b.nonce, i, a, fb}
 }
 
 // BEvent is one observation in a batch run.
@@ -141,6 +162,7 @@ type BatchObs struct {
 	FBCalls     []int    `json:"fb_calls"`
 	FBArgOK     []bool   `json:"fb_arg_ok"`
 	FBErrOK     []bool   `json:"fb_err_ok"`
+	FBEarly     []string `json:"fb_early,omitempty"` // fallback calls made before the item's budget was used up
 	KeptChanged         []string `json:"kept_changed,omitempty"` // results of an earlier run (kept by the caller) that changed during the later run
 	ParkedAtReturn      int `json:"parked_at_return,omitempty"`      // exec calls still parked when Run returned
 	CallbacksAfterReturn int `json:"callbacks_after_return,omitempty"` // callbacks that STARTED after Run had returned
@@ -186,6 +208,7 @@ type batchRun struct {
 	fbCalls  []int
 	fbArgOK  []bool
 	fbErrOK  []bool
+	fbEarly  []string
 
 	postCalls   int
 	postInfl    int
@@ -239,6 +262,7 @@ func (b *batchRun) reset() {
 	b.fbCalls = make([]int, n)
 	b.fbArgOK = make([]bool, n)
 	b.fbErrOK = make([]bool, n)
+	b.fbEarly = nil
 	b.leanAttempts = make([]int, n)
 	b.postCalls, b.postInfl, b.postParked, b.postItemsOK, b.postLenI, b.postLenR, b.postRes, b.leanPost = 0, 0, 0, false, 0, 0, nil, 0
 	b.mkItems()
@@ -378,6 +402,9 @@ func (b *batchRun) prep(ctx context.Context, s *flyt.SharedStore) (any, error) {
 	if !b.cs.Lean {
 		b.record(BEvent{Kind: "prep", Item: -1})
 	}
+	if b.cs.PrepSets != nil && b.builder != nil {
+		b.builder.WithBatchConcurrency(b.cs.C).WithBatchErrorHandling(!b.cs.Stop)
+	}
 	if c := b.cs.Cancel; c != nil && c.InPrep && b.cancel != nil {
 		b.cancel()
 		sq := b.record(BEvent{Kind: "cancel", Item: -1})
@@ -431,7 +458,7 @@ func (b *batchRun) execIdx(ctx context.Context, i int, item any) (any, error) {
 			if b.script(i).Nil {
 				return nil, nil
 			}
-			return &bOut{b.nonce, i, a, false}, nil
+			return b.okVal(i, a, false), nil
 		}
 		if b.cs.CtxLike {
 			return nil, fmt.Errorf("per-attempt timeout (%w): %w", context.Canceled, &itemErr{b.nonce, i, a, false})
@@ -505,7 +532,7 @@ func (b *batchRun) execIdx(ctx context.Context, i int, item any) (any, error) {
 		if b.script(i).Nil {
 			return nil, nil
 		}
-		return &bOut{b.nonce, i, a, false}, nil
+		return b.okVal(i, a, false), nil
 	}
 	if (i+a)%2 == 0 {
 		// a failing attempt may hand back a (meaningless) value next to its error: it must never reach a slot
@@ -545,7 +572,7 @@ func (b *batchRun) fallback(prepRes any, err error) (any, error) {
 		if b.script(i).FBE {
 			return nil, &itemErr{b.nonce, i, 0, true}
 		}
-		return &bOut{b.nonce, i, 0, true}, nil
+		return b.okVal(i, 0, true), nil
 	}
 	if i < 0 {
 		b.record(BEvent{Kind: "fallback", Item: -1, Note: "fallback received a value that is not an item: " + zoo.Describe(prepRes)})
@@ -557,6 +584,9 @@ func (b *batchRun) fallback(prepRes any, err error) (any, error) {
 	b.fbCalls[i]++
 	b.fbArgOK[i] = true
 	b.fbErrOK[i] = errOK
+	if b.attempts[i] < b.cs.Budget && b.attempts[i] < b.script(i).K {
+		b.fbEarly = append(b.fbEarly, fmt.Sprintf("item %d: fallback invoked after %d of %d permitted attempts (none of them succeeded), with error %v", i, b.attempts[i], b.cs.Budget, err))
+	}
 	b.mu.Unlock()
 	note := ""
 	if !errOK {
@@ -585,7 +615,7 @@ func (b *batchRun) fallback(prepRes any, err error) (any, error) {
 		}
 		return nil, e
 	}
-	return &bOut{b.nonce, i, 0, true}, nil
+	return b.okVal(i, 0, true), nil
 }
 
 func (b *batchRun) post(ctx context.Context, s *flyt.SharedStore, items, results []flyt.Result) (flyt.Action, error) {
@@ -661,6 +691,11 @@ func (b *batchRun) build0() flyt.Node {
 		if cs.Prelude.ReMode {
 			c2.Stop, c2.SetMode = !cs.Stop, true
 		}
+		cs = &c2
+	}
+	if cs.PrepSets != nil {
+		c2 := *cs
+		c2.C, c2.Stop, c2.SetMode = cs.PrepSets.BuiltC, !cs.Stop, true
 		cs = &c2
 	}
 	execR := func(ctx context.Context, it flyt.Result) (flyt.Result, error) {
@@ -868,6 +903,9 @@ func runBatchCase(cs *BatchCase) *BatchObs {
 			c, cf := context.WithCancelCause(context.Background())
 			ctx, b.cancel = c, func() { cf(errors.New("custom cancellation cause")) }
 			stop = b.cancel
+		case "cancel-far-deadline": // explicit cancel(), on a context that also carries a deadline two hours away
+			c, cf := context.WithTimeout(context.Background(), 2*time.Hour)
+			ctx, b.cancel, stop = c, cf, cf
 		case "real-deadline":
 			c, cf := context.WithTimeout(context.Background(), time.Duration(cs.Cancel.DeadlineMs)*time.Millisecond)
 			ctx, stop = c, cf
@@ -1076,11 +1114,42 @@ func runBatchCase(cs *BatchCase) *BatchObs {
 			<-done
 		}
 	} else {
-		wd := 60 * time.Second
-		select {
-		case <-done:
-		case <-time.After(wd):
-			obs.Incon = "free-running batch did not return within 60s"
+		t0 := time.Now()
+		self := quiesce.Self()
+		var st quiesce.Stats
+		quiet := 0
+		grace := 150*time.Millisecond + 20*(time.Duration(cs.WaitMs)*time.Millisecond+time.Duration(cs.WaitNs))
+	freeWait:
+		for {
+			select {
+			case <-done:
+				break freeWait
+			case <-time.After(grace):
+			}
+			// Not returned yet. If the whole process is blocked (nothing runnable, nothing asleep in a timer sleep) in
+			// three looks a grace period apart — long enough for every configured finite retry wait to elapse — the run
+			// will never return: a verdict (the hang C08 / C11 / C20 speak of), not a timeout.
+			if time.Since(t0) > 2*time.Second {
+				if sn, ok := quiesce.Wait(self, 300*time.Millisecond, &st); ok && sn.Sleepers == 0 {
+					if quiet++; quiet >= 3 {
+						select {
+						case <-done:
+							break freeWait
+						default:
+						}
+						obs.Deadlock = true
+						dump := make([]byte, 1<<16)
+						obs.Dump = string(dump[:runtime.Stack(dump, true)])
+						break freeWait
+					}
+				} else {
+					quiet = 0
+				}
+			}
+			if time.Since(t0) > 60*time.Second {
+				obs.Incon = "free-running batch did not return within 60s"
+				break freeWait
+			}
 		}
 	}
 	obs.WallNs = int64(time.Since(b.t0))
@@ -1120,6 +1189,7 @@ func runBatchCase(cs *BatchCase) *BatchObs {
 	obs.FBCalls = append([]int(nil), b.fbCalls...)
 	obs.FBArgOK = append([]bool(nil), b.fbArgOK...)
 	obs.FBErrOK = append([]bool(nil), b.fbErrOK...)
+	obs.FBEarly = append([]string(nil), b.fbEarly...)
 	if cs.Lean {
 		obs.PostCalls = b.leanPost
 		obs.Attempts = append([]int(nil), b.leanAttempts...)
@@ -1177,6 +1247,9 @@ func (b *batchRun) describeSlot(r flyt.Result, ctx context.Context) Slot {
 		return s
 	}
 	if o, ok := v.(*bOut); ok && o.Nonce == b.nonce {
+		s.ValOf, s.ValAtt, s.ValFB = o.I, o.Attempt, o.FB
+	}
+	if o, ok := v.(*bOutE); ok && o.Nonce == b.nonce {
 		s.ValOf, s.ValAtt, s.ValFB = o.I, o.Attempt, o.FB
 	}
 	return s
